@@ -370,7 +370,7 @@ def main():
                 if fb:
                     print(fb)
             return 0
-    out = ["(* GENERATED by lib/gen_C17.py from %s -- do not edit *)" % cxxast.REPO,
+    out = ["(* GENERATED by lib/gen_C17.py from the sources under VERIF_REPO -- do not edit *)",
            "From Coq Require Import List ZArith.", "From Coq.Strings Require Import Byte.",
            "From Muduo Require Import Gen_Consts.", "Import ListNotations.", "Local Open Scope Z_scope.", ""]
     t = attempt("tables", tables) or DEFAULT["tables"]
